@@ -538,6 +538,11 @@ def gen_c17(ctx):
         for sh in paths:
             cases.append(f"in=N out=N err=N det=0 argv={hx(nm)} path={hx(':'.join(sh))}")
     cases.append(f"in=N out=N err=N det=0 argv={hx('prog')} path={hx(d['long'])}")
+    # `PopenConfig::executable`: the name that is looked up differs from argv[0] (shorter, longer, with a slash, missing)
+    for a0, exe in [("p", "prog"), ("p", "q" * 255), ("a" * 300, "prog"), ("sh", os.path.join(d["good"], "prog")),
+                    ("x", os.path.join(d["missing"], "p" * 200)), ("prog", "nosuchprogram" * 10)]:
+        for sh in ([d["good"]], [d["missing"], d["long"]], [d["missing"]] * 3):
+            cases.append(f"in=N out=N err=N det=0 argv={hx(a0)} exe={hx(exe)} path={hx(':'.join(sh))}")
     for n, p in cw.items():
         cases.append(f"in=P out=P err=M det=0 cwd={hx(p)} argv={TRUE}")
         cases.append(f"in=N out=N err=N det=0 cwd={hx(p)} argv={hx(os.path.join(d['missing'], 'prog'))}")
